@@ -281,7 +281,7 @@ def stream_is_read_to_eof_from_its_position(ctx):
     s_ = ctx.func('upload.UploadSeekableInputManager.provide_transfer_size')
     g = ctx.cfg(s_)
     tells = [c for c in own_calls(s_.node) if isinstance(c.func, ast.Attribute) and c.func.attr == 'tell' and q.ntext(s_, c.func.value) == 'transfer_future.meta.call_args.fileobj']
-    tells = sorted(tells, key=lambda c: c.lineno)
+    tells = sorted(tells, key=lambda c: c._pos)
     seeks = [c for c in own_calls(s_.node) if isinstance(c.func, ast.Attribute) and c.func.attr == 'seek' and q.ntext(s_, c.func.value) == 'transfer_future.meta.call_args.fileobj']
     start = tells[0]._parent.targets[0].id if tells and isinstance(tells[0]._parent, ast.Assign) else None
     restore = [c for c in seeks if len(c.args) == 1 and norm(c.args[0]) == start]
